@@ -840,6 +840,10 @@ func mutatingRRWMethodsUsedByExecutor(c *Ctx) []string {
 }
 
 func checkSchemaApply(c *Ctx) {
+	c.Rule("R13e", ruleTextSetRevisionAll, 2)
+	checkSetRevisionAll(c, "R13e")
+	c.Rule("R13f", ruleTextApplyOwner, 1)
+	checkApplyOwner(c, "R13f")
 	fi := c.Func("R13c", pCmdapi, "", "applyChanges")
 	if fi != nil {
 		info := fi.Info()
